@@ -14,7 +14,8 @@
                            non-huge and point to owned tables); allocator frames are fresh and distinct.
       pages with top-level index 511 (the recursive window itself) are outside the quantifier. *)
 From Coq Require Import NArith List Bool.
-From FF Require Import Lib.Word Gen.Consts_mm_vmm Vmm.Pt Vmm.PtArith Vmm.PtTree Vmm.PtMap Vmm.PtOps Vmm.PtTheorems Vmm.PtInit Vmm.PtPdt Vmm.PtTemp Vmm.PtHist.
+From FF Require Import Lib.Word Gen.Consts_mm_vmm Vmm.Pt Vmm.PtArith Vmm.PtTree Vmm.PtMap Vmm.PtOps Vmm.PtTheorems Vmm.PtInit Vmm.PtPdt Vmm.PtTemp Vmm.PtHist Vmm.PtKernel Vmm.PtRegion.
+From FF Require Import Vmm.Region Vmm.RegionProofs.
 Import ListNotations.
 Local Open Scope N_scope.
 
@@ -196,3 +197,43 @@ Theorem C04_histories :
       refines s' A (arun ops rs m) /\ answers_ok ops rs m.
 Proof. exact histories. Qed.
 Print Assumptions C04_histories.
+
+(** region_pages.  [Hst s A own m]: the active space refines the abstract map [m] and the zero-frame
+    guard is not armed; [mrange m p f flags j] is [m] with pages p..p+j-1 mapped to frames f..f+j-1.
+    MapRegion reserves ceil(size/4096) pages below the cursor (C07) and maps them consecutively; a size
+    that does not fit reserves and maps nothing; on allocator failure a prefix of the region is mapped
+    and, as the abstract map shows, no page outside the region changes. *)
+Theorem C04_map_region_ok :
+  forall s A own m frame size flags,
+    Hst s A own m -> flags_ok flags -> size < two64 -> WFstart (last s) ->
+    match reserve_spec (last s) size with
+    | None => Pt.map_region frame size flags s = Ok (s, E_NOSPACE, 0)
+    | Some (a, len) =>
+        let start := a / 4096 in let n := N.to_nat (ceil_pages size) in
+        (forall j, (j < n)%nat -> hw_idx (start + N.of_nat j) 0 <> 511) -> frame + N.of_nat n <= 2 ^ 40 ->
+        exists s' err page own' j,
+          Pt.map_region frame size flags s = Ok (s', err, page) /\ last s' = a /\ (j <= n)%nat /\
+          Hst s' A own' (mrange m start frame flags j) /\
+          ((err = 0 /\ j = n /\ page = start) \/ (err = E_ALLOC /\ (j < n)%nat /\ page = 0))
+    end.
+Proof. exact PtRegion.map_region_ok. Qed.
+Print Assumptions C04_map_region_ok.
+
+Theorem C04_identity_map_region_ok :
+  forall s A own m frame size flags,
+    Hst s A own m -> flags_ok flags -> size + 4095 < two64 ->
+    let n := N.to_nat (ceil_pages size) in
+    (forall j, (j < n)%nat -> hw_idx (frame + N.of_nat j) 0 <> 511) -> frame + N.of_nat n <= 2 ^ 40 ->
+    exists s' err page own' j,
+      Pt.identity_map_region frame size flags s = Ok (s', err, page) /\ last s' = last s /\ (j <= n)%nat /\
+      Hst s' A own' (mrange m frame frame flags j) /\
+      ((err = 0 /\ j = n /\ page = frame) \/ (err = E_ALLOC /\ (j < n)%nat /\ page = 0)).
+Proof. exact PtRegion.identity_map_region_ok. Qed.
+Print Assumptions C04_identity_map_region_ok.
+
+Theorem C04_mrange_pages :
+  forall m p0 f0 flags n, N.of_nat n <= 2 ^ 36 ->
+    (forall j, (j < n)%nat -> mrange m p0 f0 flags n (ixs (p0 + N.of_nat j)) = Some (f0 + N.of_nat j, flags)) /\
+    (forall k, (forall j, (j < n)%nat -> ixs (p0 + N.of_nat j) <> k) -> mrange m p0 f0 flags n k = m k).
+Proof. exact mrange_pages. Qed.
+Print Assumptions C04_mrange_pages.
